@@ -33,7 +33,8 @@ LEVEL_TEXT = ("Generated input files (1-4 games: stopping, no-solution, malforme
               "conditionalrewards.main() with -s in a scratch directory while capturing what run_games returned; the "
               "report is parsed by an independent parser and compared field by field, the reader's result with the "
               "denoted dict (types included). Synthetic result dicts exercise every value kind (None, [], nested None, "
-              "long float vectors, ints, inf, punctuation). A few cases go through a real subprocess. Exploration.")
+              "long float vectors, ints, inf, punctuation). A few cases go through a real subprocess. Exploration."
+              ' Added while validating sensitivity: file stems ending in the letters of the extension, several path spellings, related (reach, final) strategy pairs, reports with vectors of 10^4 entries and 130 games.')
 LEVEL_NOTE = ("Trusted: the report parser and pretty-printer in props/c16.py. File texts use literal syntax only (the "
               "reader executes its input, so unstructured text is never fed to it). Names and messages contain no line "
               "breaks.")
